@@ -490,6 +490,13 @@ func (a *act) callStatic(fn *ssa.Function, binds, args, full []Val, guard string
 	fx := a.fx
 	e := fx.eng
 	key := FuncKey(fn)
+	if !fx.lockMode && fn.Pkg != nil && (fn.Pkg.Pkg.Path() == "sync" || fn.Pkg.Pkg.Path() == "golang.org/x/sync/semaphore") {
+		switch fn.Name() {
+		case "Lock", "Unlock", "RLock", "RUnlock", "Add", "Done", "Wait", "Signal", "Broadcast", "Release":
+			e.assume("functional contracts are sequential: lock/WaitGroup operations are no-ops here; atomicity of each method is the obligation of C13")
+			return a.freshResults(fn.Signature, fn.Name(), guard)
+		}
+	}
 	if sp, ok := e.specs.Funcs[key]; ok && !sp.Inline && !(sp.Lemma) {
 		return a.applyContract(sp, fn, nil, full, guard, st, pos, sig)
 	}
